@@ -49,6 +49,7 @@ from pyrates.frontend.template.edge import EdgeTemplate
 from pyrates.frontend.template.node import NodeTemplate
 from pyrates.frontend.template.operator import OperatorTemplate
 from pyrates.ir.circuit import get_unique_label, CircuitIR, PyRatesException, PyRatesWarning
+from pyrates.ir.circuit import in_edge_indices, in_edge_vars
 from pyrates.ir.edge import EdgeIR
 from pyrates.ir.node import clear_ir_caches
 
@@ -785,6 +786,15 @@ class CircuitTemplate(AbstractBaseTemplate):
         if not edge_values:
             edge_values = {}
         scalar_shape = (1,) if vectorize else ()
+
+        # Every translation starts from empty per-translation caches. They only serve to merge the nodes and operators
+        # of ONE circuit; anything left over from an earlier model that was not cleared (operators looked up by name,
+        # vectorized nodes looked up by operator structure, node-label and in-edge counters) would otherwise be merged
+        # into this one.
+        clear_ir_caches()
+        OperatorTemplate.cache.clear()
+        in_edge_indices.clear()
+        in_edge_vars.clear()
 
         # turn nodes from templates into IRs
         ####################################
